@@ -1,8 +1,8 @@
 """Shared plumbing for the /verif checks: build, scratch dirs, TLC invocation, evidence, verdicts."""
 import json, os, re, shutil, subprocess, sys, tempfile, time, concurrent.futures
 
-VERIF = "/verif"
-REPO = "/repo"
+VERIF = os.environ.get("VERIF_ROOT", "/verif")   # a private clone may be used during development
+REPO = os.environ.get("VERIF_REPO", "/repo")
 JAR = "/opt/veriftools/tla/tla2tools.jar:/opt/veriftools/tla/CommunityModules-deps.jar"
 ENV = dict(os.environ, GOFLAGS="-mod=mod", GOPROXY="off")
 ENV.pop("GOSUMDB", None)   # GOSUMDB=off breaks the offline toolchain switch (measured)
